@@ -98,7 +98,7 @@ fn main() {
             open_died(&args[3]);
             let f = std::io::BufReader::new(std::fs::File::open(&args[2]).expect("cases file"));
             let mut out = BufWriter::new(std::fs::File::create(&args[3]).unwrap());
-            let (mut n, mut bad, mut panics) = (0u64, 0u64, 0u64);
+            let (mut n, mut bad, mut panics, mut allocs) = (0u64, 0u64, 0u64, 0u64);
             let mut session: Vec<String> = Vec::new();
             for line in f.lines() {
                 let line = line.unwrap();
@@ -134,17 +134,25 @@ fn main() {
                 if pan {
                     panics += 1;
                 }
-                if !ok || pan {
+                // slice-parser calls must not allocate (stream ops are exempt: they own their buffers)
+                let alc = evs.iter().any(|e| e["allocs"].as_u64().unwrap_or(0) > 0 && e["op"] != "sopen" && e["op"] != "sq");
+                if alc {
+                    allocs += 1;
+                }
+                if !ok {
                     bad += 1;
-                    if bad <= 50 {
+                }
+                if !ok || pan || alc {
+                    if bad + panics + allocs <= 60 {
                         let got: Vec<Value> = evs.iter().map(|e| e["res"].clone()).collect();
-                        serde_json::to_writer(&mut out, &json!({"session": session, "case": case, "got": got})).unwrap();
+                        let why = if pan { "panic" } else if !ok { "value" } else { "alloc" };
+                        serde_json::to_writer(&mut out, &json!({"why": why, "session": session, "case": case, "got": got})).unwrap();
                         out.write_all(b"\n").unwrap();
                     }
                 }
             }
             out.flush().unwrap();
-            println!("{}", json!({"cases": n, "mismatches": bad, "panics": panics}));
+            println!("{}", json!({"cases": n, "mismatches": bad, "panics": panics, "allocs": allocs}));
         }
         "gen" => {
             let fam = &args[2];
